@@ -23,6 +23,9 @@ type DbSqlite struct {
 	db        *sql.DB
 	meta      Meta
 	writeLock sync.Mutex
+	// metaLock protects meta.RootID, which is updated when a new root edge is
+	// written and read by every request that refers to the root
+	metaLock sync.RWMutex
 }
 
 // Meta contains metadata about the database
@@ -592,7 +595,7 @@ func (sdb *DbSqlite) edgePoints(nodeID, parentID string, points data.Points) err
 		return fmt.Errorf("Error: edgePoints nodeID=parentID=%v", nodeID)
 	}
 
-	if nodeID == sdb.meta.RootID {
+	if nodeID == sdb.rootNodeID() {
 		for _, p := range points {
 			if p.Type == data.PointTypeTombstone && p.Value > 0 {
 				return fmt.Errorf("Error, can't delete root node")
@@ -861,7 +864,9 @@ NextPin:
 				rollback()
 				return fmt.Errorf("Error update root id in meta: %w", err)
 			}
+			sdb.metaLock.Lock()
 			sdb.meta.RootID = nodeID
+			sdb.metaLock.Unlock()
 		}
 	}
 
@@ -1058,6 +1063,8 @@ func (sdb *DbSqlite) Close() error {
 }
 
 func (sdb *DbSqlite) rootNodeID() string {
+	sdb.metaLock.RLock()
+	defer sdb.metaLock.RUnlock()
 	return sdb.meta.RootID
 }
 
@@ -1080,7 +1087,7 @@ func (sdb *DbSqlite) getNodes(tx *sql.Tx, parent, id, typ string, includeDel boo
 	switch {
 	case parent == "root":
 		// return a single root node
-		q = fmt.Sprintf("SELECT * FROM edges WHERE down = '%v'", sdb.meta.RootID)
+		q = fmt.Sprintf("SELECT * FROM edges WHERE down = '%v'", sdb.rootNodeID())
 	case parent == "all" && id == "all":
 		return nil, errors.New("invalid combination of parent and id")
 	case parent == "all":
